@@ -193,7 +193,7 @@ fn w() {
 func init() {
 	for i := range c17Cases {
 		c17Cases[i].Body = spawnBody
-		c17Cases[i].Bound = map[string]int{"quick": 2, "thorough": 3}
+		c17Cases[i].Bound = map[string]int{"quick": 3, "thorough": 4}
 	}
 	register("C17", func() *Check {
 		return &Check{ID: "C17", Scenarios: []Scenario{schedScenario("spawn-schedules", c17Cases)}}
